@@ -8,6 +8,7 @@ import inspect
 import json
 import os
 
+import c12_hist as H
 import c12_specs as S
 from common import CORPUS_DIR, call
 
@@ -24,7 +25,17 @@ RULE = ("for every class with a hand-written __eq__/__hash__ (52 constructors in
         "once), and EVERY constructor parameter changed alone to another valid value (reals by 1.7e-10 .. 1), plus "
         "correspondence-only probes (2e-11 shifts, None vs empty container, reversed lists, shifted trajectory) and, for the "
         "hashability model, 3 ill-typed probes per instance (one constructor argument replaced by None / [1] / [[1]] / "
-        "{'k': [1]} where the constructor accepts it); non-trivial = every case (>= 1 perturbed pair); distinct = distinct "
+        "{'k': [1]} where the constructor accepts it); on half of the instances HISTORIES between building and comparing "
+        "(harness/c12_hist.py): for 2 random constructor attributes the value a constructor stores for a changed argument is "
+        "handed to the property setter (set-change, compared with the freshly constructed object and with the original), set "
+        "and restored, written into the container the getter returns in place (change / restore), the same object handed "
+        "back (set-same), an unacceptable value offered (set-bad: a failing operation), a setter of a nested object; 2 "
+        "mutating methods with canned arguments applied to two twins (translate_rotate, add_predecessor, append_state, "
+        "fill_with_defaults, convert_to_2d, cleanup_*, ...); pickle / copy.copy / dataclasses.replace; the rarely used "
+        "builders (list form of add_objects + replace_lanelet_network, create_from_lanelet_list, add_planning_problem, empty "
+        "state / signal state filled attribute by attribute); int instead of integral floats and numpy scalars instead of "
+        "Python numbers; ids from 0; magnitudes up to 1e6; the table of all 377 setters and public methods of the 52 classes "
+        "(harness/c12_dimensions.json) is compared with the working tree on every run (unknown entry => exit 2); non-trivial = every case (>= 1 perturbed pair); distinct = distinct "
         "canonical JSON of the instance description")
 ASSUMPTIONS = [
     "Python's hash of tuple/frozenset/str/int/float/None/Enum is a function of the ==-class of its argument and collides on "
@@ -40,6 +51,14 @@ ASSUMPTIONS = [
     "admitted attribute types (`hrow`) describe what the public constructors store for valid arguments, None defaults "
     "included; every generated instance is checked to be well-typed in the model",
     "kwargs-only extension attributes of TrajectoryPrediction / DynamicObstacle (**kwargs) are not constructor parameters of the property",
+    "histories: whenever two objects show identical values through all public getters they must be equal and hash alike; "
+    "a value handed to a setter is the value a constructor stores for that attribute (a raw None / list that only the "
+    "constructor normalises is outside 'built through the public constructors'); setters that are not constructor-visible "
+    "(Lanelet.distance, *_obstacles_on_lanelet, obstacle_role, Rectangle.vertices, wheelbase_lengths) are outside the quantifier; "
+    "container edits that take objects (add_* / remove_* after assembly) belong to C09/C10",
+    "mutable default arguments shared between instances (TrafficSignElement.additional_values=[], Scenario.scenario_id, "
+    "LaneletNetwork.information) are never edited in place by the generator: an in-place edit of one changes every instance "
+    "built with the default, which keeps them equal (no C12 verdict)",
     "not demanded: order of list-valued attributes that the code compares as sets; None vs the empty container as a "
     "constructor-visible difference (several classes document None as 'no ids')",
 ]
@@ -49,7 +68,10 @@ REQUIRED_BUCKETS = ["cls:" + c for c in S.CLASSES] + ["pair:self", "pair:deepcop
                                                         "defaults-only", "probe:sub-threshold", "probe:none-vs-empty",
                                                         "probe:reversed-list", "table-row", "hash:well-typed",
                                                         "illtyped:raises", "illtyped:completes", "pair:after-reads", "pair:after-reads:deepcopy",
-                                                        "history:reads"]
+                                                        "history:reads", "dimension-table"] + \
+    ["history:" + k for k in ("set-change", "set-restore", "set-same", "set-bad", "inplace-change", "inplace-restore", "nested-set",
+                              "call", "pickle", "copy", "replace", "alt-entry", "numeric-int", "numeric-np",
+                              "identical-getter-values")]
 WORKERS = {"quick": 4, "thorough": 8}
 
 QUICK_PER_CLASS = 48
@@ -182,39 +204,62 @@ def _none_is_empty(e):
     return e
 
 
-def fail(ctx, key, what, cls, dx, dy=None, attr=None, kind=None):
+def fail(ctx, key, what, cls, dx, dy=None, attr=None, kind=None, case=None):
     seen = ctx.__dict__.setdefault("seen_keys", {})
     seen[key] = seen.get(key, 0) + 1
     if seen[key] == 1:  # one replayable case per finding key and worker (the cap of 200 must not hide other keys)
-        ctx.fail(key, what, {"cls": cls, "x": dx, "y": dy, "attr": attr, "kind": kind})
+        ctx.fail(key, what, case if case is not None else {"cls": cls, "x": dx, "y": dy, "attr": attr, "kind": kind})
 
 
-def oracle_pair(ctx, cls, dx, dy, x, y, ob, kind, attr, demand):
+def culprit(x, y=None):
+    """class of the innermost nested object that is responsible: whose hash raises (y None), or that is equal to its
+    counterpart but hashes differently — so that a finding is keyed by the class that has the defect, not by every container"""
+    xs = list(S.walk_objects(x))
+    if y is None:
+        for o in reversed(xs):
+            if call(hash, o)[0] == "err":
+                return type(o).__name__
+        return type(x).__name__
+    ys = list(S.walk_objects(y))
+    if len(xs) == len(ys):
+        for a, b in reversed(list(zip(xs, ys))):
+            e, ha, hb = call(lambda: a == b), call(hash, a), call(hash, b)
+            if e[0] == "ok" and e[1] and ha[0] == hb[0] == "ok" and ha[1] != hb[1]:
+                return type(a).__name__
+    return type(x).__name__
+
+
+def oracle_pair(ctx, cls, dx, dy, x, y, ob, kind, attr, demand, case=None):
     """the property sentences, evaluated on the real objects"""
     site = f"C12/{cls}"
     for side, h in (("x", ob["hx"]), ("y", ob["hy"])):
-        if h[0] == "err" and not (side == "x" and kind != "self"):
-            fail(ctx, f"{site}/hash-raises/{h[1]}", f"hash({cls}(...)) raises {h[2]}", cls, dx if side == "x" else dy, None, None, "hash")
+        if h[0] == "err" and kind.startswith("history/"):
+            who = culprit(x if side == "x" else y)
+            fail(ctx, f"C12/{who}/hash-raises/{h[1]}/{kind}", f"hash({who}(...)) raises {h[2]} ({kind})", cls, dx, dy, None, "hash", case=case)
+        elif h[0] == "err" and not (side == "x" and kind != "self"):
+            fail(ctx, f"{site}/hash-raises/{h[1]}", f"hash({cls}(...)) raises {h[2]}", cls, dx if side == "x" else dy, None, None, "hash", case=case)
     for name in ("eq_xy", "eq_yx", "ne_xy"):
         if ob[name][0] == "err":
-            fail(ctx, f"{site}/eq-raises/{ob[name][1]}", f"{name} raises {ob[name][2]} ({kind} {attr or ''})", cls, dx, dy, attr, kind)
+            fail(ctx, f"{site}/eq-raises/{ob[name][1]}", f"{name} raises {ob[name][2]} ({kind} {attr or ''})", cls, dx, dy, attr, kind, case=case)
             return
     e1, e2, ne = bool(ob["eq_xy"][1]), bool(ob["eq_yx"][1]), bool(ob["ne_xy"][1])
     if e1 != e2:
-        fail(ctx, f"{site}/not-symmetric", f"x == y is {e1} but y == x is {e2} ({kind} {attr or ''})", cls, dx, dy, attr, kind)
+        fail(ctx, f"{site}/not-symmetric", f"x == y is {e1} but y == x is {e2} ({kind} {attr or ''})", cls, dx, dy, attr, kind, case=case)
     if ne == e1:
-        fail(ctx, f"{site}/ne-inconsistent", f"x == y is {e1} and x != y is {ne}", cls, dx, dy, attr, kind)
+        fail(ctx, f"{site}/ne-inconsistent", f"x == y is {e1} and x != y is {ne}", cls, dx, dy, attr, kind, case=case)
     if demand == "equal" and not (e1 and e2):
-        k = {"self": "not-reflexive", "deepcopy": "deepcopy-unequal", "twin": "identical-values-unequal",
+        k = kind if kind.startswith("history/") else {"self": "not-reflexive", "deepcopy": "deepcopy-unequal", "twin": "identical-values-unequal",
              "permuted": "set-order-dependent", "reordered-kwargs": "kwargs-order-dependent",
              "after-reads": "changed-by-reads/vs-untouched-twin", "after-reads:deepcopy": "changed-by-reads/vs-earlier-deepcopy"}[kind]
-        fail(ctx, f"{site}/{k}", f"{cls}: {kind} partner compares unequal (x==y {e1}, y==x {e2})", cls, dx, dy, attr, kind)
+        fail(ctx, f"{site}/{k}", f"{cls}: {kind} partner compares unequal (x==y {e1}, y==x {e2})", cls, dx, dy, attr, kind, case=case)
     if demand == "unequal" and (e1 or e2):
-        fail(ctx, f"{site}/perturbation-undetected/{attr}",
-             f"{cls}: objects that differ only in constructor parameter {attr!r} compare equal", cls, dx, dy, attr, kind)
+        fail(ctx, f"{site}/{kind}/change-undetected" if kind.startswith("history/") else f"{site}/perturbation-undetected/{attr}",
+             f"{cls}: objects that differ only in constructor parameter {attr!r} compare equal ({kind})", cls, dx, dy, attr, kind,
+             case=case)
     if (e1 or e2) and ob["hx"][0] == "ok" and ob["hy"][0] == "ok" and ob["hx"][1] != ob["hy"][1]:
-        fail(ctx, f"{site}/equal-but-hash-differs/{kind if kind != 'perturbed' else attr}",
-             f"{cls}: x == y but hash(x) != hash(y) ({kind} {attr or ''})", cls, dx, dy, attr, kind)
+        who = culprit(x, y) if kind.startswith("history/") else cls
+        fail(ctx, f"C12/{who}/equal-but-hash-differs/{kind if kind != 'perturbed' else attr}",
+             f"{cls}: x == y but hash(x) != hash(y) ({kind} {attr or ''})", cls, dx, dy, attr, kind, case=case)
 
 
 def run_case(ctx, dx, only=None):
@@ -270,6 +315,8 @@ def run_case(ctx, dx, only=None):
         enc_pairs.append((ex if left is x else S.encode(left), S.encode(y)))
         oracle_pair(ctx, cls, dx, dy, left, y, ob, kind, attr, demand)
     hash_correspondence(ctx, cls, dx, x, objs, obs, only)
+    if only is None and ctx.rng.random() < (0.5 if ctx.tier == "quick" else 0.08):  # histories on a part of the instances
+        run_histories(ctx, cls, dx, x)
     # correspondence: the model's verdicts for == and for "hash keys agree" on the same pairs
     model = model_pairs(ctx, enc_pairs)
     for (kind, y, dy, attr, demand), ob, mv in zip(objs, obs, model):
@@ -282,6 +329,61 @@ def run_case(ctx, dx, only=None):
             row["n"] += 1
             row["eq"] = row["eq"] or impl["eq"] is False
             row["hash"] = row["hash"] or impl["hash"] is False
+
+
+def run_histories(ctx, cls, dx, x, hs=None):
+    """HISTORIES between building and comparing (harness/c12_hist.py): setters (change / restore / same object / failing),
+    in-place edits of the containers the getters return, mutating methods with canned arguments on two twins, pickle / copy /
+    dataclasses.replace, the rarely used builders, int / numpy-scalar numbers.  Oracle: whenever the two objects show
+    identical values through all public getters they must be equal and hash alike; an object changed through a setter into
+    the values of a freshly constructed z (z != x) must be unequal to x.  The model judges every pair (correspondence)."""
+    hs = hs if hs is not None else H.gen_histories(ctx.rng, dx)
+    pairs, meta = [], []
+    for h in hs:
+        y = try_build(dx)
+        if y is None:
+            continue
+        r = call(H.apply_history, y, h["hist"])
+        if r[0] != "ok":
+            ctx.tag("history-not-applicable:" + h["hkind"])
+            continue
+        y = r[1]
+        part = h["partner"]
+        if part == "x":
+            w, dw = x, dx
+        elif "desc" in part:
+            w, dw = try_build(part["desc"]), part["desc"]
+        else:
+            w = try_build(dx)
+            rw = call(H.apply_history, w, part["hist"]) if w is not None else ("err",)
+            w, dw = (rw[1] if rw[0] == "ok" else None), dx
+        if w is None:
+            continue
+        ey, ew = call(S.encode, y), call(S.encode, w)
+        if ey[0] != "ok" or ew[0] != "ok":
+            ctx.tag("history-not-encodable:" + h["hkind"])
+            continue
+        sy, sw = S.encode(y, True), S.encode(w, True)
+        ctx.tag("history:" + h["hkind"])
+        sub = {"cls": cls, "x": dx, "kind": "history", "h": h, "attr": h.get("attr")}
+        ob = observe(w, y)
+        same = sy == sw
+        if same:
+            ctx.tag("history:identical-getter-values")
+        oracle_pair(ctx, cls, sub, None, w, y, ob, "history/" + h["hkind"], h.get("attr"), "equal" if same else None, case=sub)
+        pairs.append((ew[1], ey[1]))
+        meta.append((sub, ob))
+        if same and part != "x" and "desc" in part and h["hkind"] in ("set-change", "inplace-change", "nested-set") \
+                and _none_is_empty(sw) != _none_is_empty(S.encode(x, True)):
+            ob2 = observe(x, y)
+            sub2 = dict(sub, vs="original")
+            oracle_pair(ctx, cls, sub2, None, x, y, ob2, "history/" + h["hkind"] + "/vs-original", h.get("attr"), "unequal", case=sub2)
+    for (sub, ob), mv in zip(meta, model_pairs(ctx, pairs)):
+        impl = {"eq": _bool(ob["eq_xy"]), "hash": (ob["hx"][1] == ob["hy"][1]) if ob["hx"][0] == ob["hy"][0] == "ok" else None}
+        if impl["eq"] and impl["hash"] is False:
+            impl["hash"] = None  # equal objects with different hashes: the oracle has reported it; not a question to the model
+        mdl = {"eq": mv["eq"], "hash": mv["hash"] if impl["hash"] is not None else None}
+        ctx.compare(sub, impl, mdl, f"{cls} history {sub['h']['hkind']} {sub.get('attr') or ''}: (w == y, hashes agree) vs CR.EqHash.eqv / hashEqv")
 
 
 def hash_correspondence(ctx, cls, dx, x, objs, obs, only):
@@ -396,6 +498,14 @@ def _corpus(ctx):
 def run(ctx):
     ctx.rows = {}
     if ctx.worker == 0:
+        unknown, gone = H.check_dimensions()
+        if unknown or gone:
+            import common
+            raise common.InfraError(
+                f"C12 dimension table (harness/c12_dimensions.json) does not match the working tree: new setters / methods "
+                f"{unknown[:12]}, vanished {gone[:12]} — classify them in harness/c12_hist.py and regenerate the table "
+                f"(python harness/c12_hist.py --dump)")
+        ctx.tag("dimension-table")
         _corpus(ctx)
         check_signatures(ctx)
     classes = list(S.CLASSES)
@@ -431,6 +541,11 @@ search = run
 
 def replay(ctx, case):
     ctx.rows = getattr(ctx, "rows", {})
+    if case.get("kind") == "history":
+        x = try_build(case["x"])
+        if x is not None:
+            run_histories(ctx, case["cls"], case["x"], x, hs=[case["h"]])
+        return
     if case.get("y") is None and case.get("kind") in (None, "self", "deepcopy", "hash"):
         run_case(ctx, case["x"], only={"kind": case.get("kind") or "self"})
     else:
